@@ -76,6 +76,16 @@ theorem alloc_step (st : Store) (cs : List Cell) :
     simp [alloc] at ha ⊢
     omega
 
+theorem allocCap_step (st : Store) (cs pad : List Cell) :
+    Step [] st (allocCap st cs pad).1 [(allocCap st cs pad).2.addr] := by
+  refine ⟨by simp [allocCap], fun a ha _ => by simp [allocCap, List.getElem?_append_left ha], ?_, ?_⟩
+  · intro a ha
+    simp [allocCap] at ha
+    exact Or.inr (by omega)
+  · intro a ha
+    simp [allocCap] at ha ⊢
+    omega
+
 theorem set_step {st : Store} {a : Nat} {arr : List Cell} (ha : a < st.length) :
     Step [a] st (st.set a arr) [a] := by
   refine ⟨by simp, ?_, fun x hx => Or.inl hx, ?_⟩
@@ -132,7 +142,7 @@ theorem append_step {st st' : Store} {s s' : Option Slice} {cs : List Cell}
         · cases h
           exact set_step (lt_of_getElem?_some harr)
         · cases h
-          exact (alloc_step st (arr.take s.len ++ cs)).mono_left (by simp)
+          exact (allocCap_step st (arr.take s.len ++ cs) _).mono_left (by simp)
       · cases h
 
 theorem mergeInto_step {st st' : Store} {d d' : Option Slice} {src : List Cell}
@@ -547,6 +557,66 @@ theorem cloneFeat_step {st st' : Store} {f c : Feat} (h : cloneFeat st f = some 
           simp only [mem_fp] at ha
           simp only [List.mem_append]
           rcases ha with h | h | h | h | h | h <;> simp_all [addrs]
+
+theorem fromWorld_step {st st' : Store} {w c : Feat} (h : fromWorld st w = some (st', c)) :
+    Step [] st st' (fp c) := by
+  unfold fromWorld at h
+  cases ht : cloneMake st w.tags with
+  | none => rw [ht] at h; cases h
+  | some t =>
+    rw [ht] at h
+    simp only at h
+    have h1 := cloneMake_step (st' := t.1) (s' := t.2) ht
+    split at h
+    · cases h
+      exact h1.weaken (by intro a ha; simpa [mem_fp, addrs] using ha)
+    · cases hi : cloneInner t.1 w.ids with
+      | none => rw [hi] at h; cases h
+      | some i =>
+        rw [hi] at h
+        simp only at h
+        cases hp : cells i.1 w.polygons with
+        | none => rw [hp] at h; cases h
+        | some ps =>
+          rw [hp] at h
+          simp only at h
+          split at h
+          · cases h
+          · cases h
+            have h2 := cloneInner_step (st' := i.1) (l' := i.2) hi
+            have h3 := alloc_step i.1 (fromWorldPolygons w.ids ps)
+            refine ((h1.seq h2 (by simp)).seq h3 (by simp)).weaken ?_
+            intro a ha
+            simp only [mem_fp] at ha
+            simp only [List.mem_append, List.mem_flatMap]
+            rcases ha with h | h | h | h | h | h <;> simp_all [addrs]
+    · cases hm : cloneMake t.1 w.members with
+      | none => rw [hm] at h; cases h
+      | some m =>
+        rw [hm] at h
+        cases h
+        have h2 := cloneMake_step (st' := m.1) (s' := m.2) hm
+        refine (h1.seq h2 (by simp)).weaken ?_
+        intro a ha
+        simp only [mem_fp] at ha
+        simp only [List.mem_append]
+        rcases ha with h | h | h | h | h | h <;> simp_all [addrs]
+    · split at h
+      · split at h
+        · cases h
+        · split at h
+          · cases h
+            exact h1.weaken (by intro a ha; simpa [mem_fp, addrs] using ha)
+          · cases h
+            rename_i ks vs _ _ _ _
+            have h2 := alloc_step t.1 ks
+            have h3 := alloc_step (alloc t.1 ks).1 vs
+            refine ((h1.seq h2 (by simp)).seq h3 (by simp)).weaken ?_
+            intro a ha
+            simp only [mem_fp] at ha
+            simp only [List.mem_append]
+            rcases ha with h | h | h | h | h | h <;> simp_all [addrs]
+      · cases h
 
 /-! ### `MergeFrom` writes into the receiver's own arrays (or new ones) only -/
 
@@ -1202,5 +1272,359 @@ theorem Sep2.push {st st' : Store} {l1 l2 : List Feat} {c : Feat} (h : Sep2 st l
     exact view_frame hs (h.valid1 x hx) (by simp)
   · intro y hy
     exact view_frame hs (h.valid2 y hy) (by simp)
+
+/-! ### what the copy idioms produce — for every capacity (any store, any array length) -/
+
+theorem cells_allocCap (st : Store) (cs pad : List Cell) :
+    cells (allocCap st cs pad).1 (some (allocCap st cs pad).2) = some cs := by
+  simp [cells, allocCap]
+
+theorem cells_some_arr {st : Store} {s : Slice} {arr : List Cell} (ha : st[s.addr]? = some arr)
+    (hl : s.len ≤ arr.length) : cells st (some s) = some (arr.take s.len) := by
+  simp [cells, ha, hl]
+
+theorem cells_set_self {st : Store} {a n : Nat} {arr : List Cell} (ha : a < st.length)
+    (hn : n ≤ arr.length) : cells (st.set a arr) (some ⟨a, n⟩) = some (arr.take n) := by
+  have : (st.set a arr)[a]? = some arr := by simp [ha]
+  simp [cells, this, hn]
+
+/-- `append` yields the old visible elements followed by the new ones, whether it wrote in place or
+re-allocated — i.e. whatever the capacity was -/
+theorem append_cells {st st' : Store} {s s' : Option Slice} {cs xs : List Cell}
+    (h : append st s cs = some (st', s')) (hx : cells st s = some xs) :
+    cells st' s' = some (xs ++ cs) := by
+  unfold append at h
+  cases s with
+  | none =>
+    simp only [cells, Option.some.injEq] at hx
+    subst hx
+    simp only at h
+    split at h
+    · rename_i hcs
+      cases h
+      simp [cells, hcs]
+    · cases h
+      simpa using cells_alloc st cs
+  | some s =>
+    simp only at h
+    cases harr : st[s.addr]? with
+    | none => rw [harr] at h; cases h
+    | some arr =>
+      rw [harr] at h
+      simp only at h
+      split at h
+      · rename_i hl
+        rw [cells_some_arr harr hl, Option.some.injEq] at hx
+        subst hx
+        split at h
+        · rename_i hfit
+          cases h
+          rw [cells_set_self (lt_of_getElem?_some harr) (by simp; omega)]
+          congr 1
+          rw [List.append_assoc]
+          have : (List.take s.len arr ++ cs).length = s.len + cs.length := by
+            simp [List.length_take, Nat.min_eq_left hl]
+          rw [← List.append_assoc, List.take_left' this]
+        · cases h
+          exact cells_allocCap st _ _
+      · cases h
+
+/-- the `copy` + `append`/truncate idiom leaves exactly the source's elements visible, whatever the
+receiver's old length and capacity were (shorter, equal, longer; nil) -/
+theorem mergeInto_cells {st st' : Store} {d d' : Option Slice} {src : List Cell}
+    (h : mergeInto st d src = some (st', d')) : cells st' d' = some src := by
+  unfold mergeInto at h
+  cases d with
+  | none => simpa using append_cells h (xs := []) rfl
+  | some d =>
+    simp only at h
+    cases harr : st[d.addr]? with
+    | none => rw [harr] at h; cases h
+    | some arr =>
+      rw [harr] at h
+      simp only at h
+      have hlt := lt_of_getElem?_some harr
+      split at h
+      · rename_i hl
+        split at h
+        · rename_i hshort
+          have hmin : min d.len src.length = d.len := by omega
+          rw [hmin] at h
+          have hlen : (src.take d.len ++ arr.drop d.len).length = arr.length := by
+            simp [List.length_take]; omega
+          have hc : cells (st.set d.addr (src.take d.len ++ arr.drop d.len)) (some d)
+              = some (src.take d.len) := by
+            rw [cells_set_self hlt (by omega)]
+            congr 1
+            exact List.take_left' (by simp [List.length_take]; omega)
+          have := append_cells h hc
+          rwa [List.take_append_drop] at this
+        · rename_i hlong
+          have hmin : min d.len src.length = src.length := by omega
+          rw [hmin] at h
+          cases h
+          rw [cells_set_self hlt (by simp)]
+          congr 1
+          rw [List.take_of_length_le (Nat.le_refl _)]
+          exact List.take_left' rfl
+      · cases h
+
+/-- an operation with footprint `W` leaves a slice outside `W` as it was -/
+theorem cells_step_other {W W' : List Nat} {st st' : Store} {s : Option Slice} (h : Step W st st' W')
+    (hs : ∀ a ∈ addrs s, a < st.length ∧ a ∉ W) : cells st' s = cells st s :=
+  cells_congr (fun a ha => h.frame a (hs a ha).1 (hs a ha).2)
+
+theorem viewIds_step_other {W W' : List Nat} {st st' : Store} {l : List (Option Slice)}
+    (h : Step W st st' W') (hs : ∀ a ∈ l.flatMap addrs, a < st.length ∧ a ∉ W) :
+    viewIds st' l = viewIds st l :=
+  viewIds_congr (fun a ha => h.frame a (hs a ha).1 (hs a ha).2)
+
+/-! ### `MergeFrom` makes the receiver observably equal to its argument -/
+
+/-- the slices `growIds` adds: one per missing member, of the member's length, over new, different arrays -/
+theorem growIds_spec (rest : List (Option Slice)) : ∀ (st : Store) (mine : List (Option Slice)),
+    ∃ news : List (Option Slice), (growIds st mine rest).2 = mine ++ news ∧ news.length = rest.length ∧
+      (news.flatMap addrs).Nodup ∧ (∀ a ∈ news.flatMap addrs, st.length ≤ a) ∧
+      Step [] st (growIds st mine rest).1 (news.flatMap addrs) := by
+  induction rest with
+  | nil => intro st mine; exact ⟨[], by simp [growIds], rfl, by simp, by simp, Step.refl (by simp)⟩
+  | cons o rest ih =>
+    intro st mine
+    simp only [growIds]
+    obtain ⟨news, h1, h2, h3, h4, h5⟩ := ih (alloc st (List.replicate (slen o) (Cell.scalar "0"))).1
+      (mine ++ [some (alloc st (List.replicate (slen o) (Cell.scalar "0"))).2])
+    refine ⟨some (alloc st (List.replicate (slen o) (Cell.scalar "0"))).2 :: news, ?_, ?_, ?_, ?_, ?_⟩
+    · rw [h1]; simp
+    · simp [h2]
+    · simp only [List.flatMap_cons, addrs, List.singleton_append, List.nodup_cons]
+      refine ⟨fun hm => ?_, h3⟩
+      have := h4 _ hm
+      simp [alloc] at this
+      omega
+    · intro a ha
+      simp only [List.flatMap_cons, addrs, List.singleton_append, List.mem_cons] at ha
+      rcases ha with rfl | ha
+      · simp [alloc]
+      · have := h4 a ha
+        simp [alloc] at this
+        omega
+    · exact ((alloc_step st _).seq h5 (by simp)).weaken (by simp [addrs])
+
+theorem viewIds_cons_some {st : Store} {x : Option Slice} {rest : List (Option Slice)} {cs : List Cell}
+    {r : List (Option (List Cell))} (hx : x ≠ none) (hc : cells st x = some cs)
+    (hr : viewIds st rest = some r) : viewIds st (x :: rest) = some (some cs :: r) := by
+  cases x with
+  | none => exact absurd rfl hx
+  | some s => simp only [viewIds, hc, hr]
+
+/-- the loop of `AreaMembers.MergeFrom` over equally long lists: the receiver's inner slices end up with
+the other's path ids (nil where the other has a polygon), provided the receiver's inner arrays are
+different from each other and from the other's, and the other has no empty non-nil path list -/
+theorem mergeInner_view {mine : List (Option Slice)} :
+    ∀ {theirs : List (Option Slice)} {st st' : Store} {res : List (Option Slice)}
+      {tv : List (Option (List Cell))},
+    mergeInner st mine theirs = some (st', res) → mine.length = theirs.length →
+    (∀ a ∈ mine.flatMap addrs, a < st.length) → (mine.flatMap addrs).Nodup →
+    (∀ a ∈ theirs.flatMap addrs, a < st.length ∧ a ∉ mine.flatMap addrs) →
+    (∀ s ∈ theirs, s ≠ none → 0 < slen s) →
+    viewIds st theirs = some tv → viewIds st' res = some tv := by
+  induction mine with
+  | nil =>
+    intro theirs st st' res tv h hlen _ _ _ _ hv
+    simp only [mergeInner, Option.some.injEq, Prod.mk.injEq] at h
+    obtain ⟨rfl, rfl⟩ := h
+    cases theirs with
+    | nil => exact hv
+    | cons _ _ => simp at hlen
+  | cons m mine ih =>
+    intro theirs st st' res tv h hlen hvalid hnd hth hne hv
+    cases theirs with
+    | nil => simp at hlen
+    | cons o theirs =>
+      have hlen' : mine.length = theirs.length := by simpa using hlen
+      have hnd' : (mine.flatMap addrs).Nodup := by
+        simp only [List.flatMap_cons] at hnd
+        exact (List.nodup_append.mp hnd).2.1
+      have hm_notin : ∀ a ∈ addrs m, a ∉ mine.flatMap addrs := by
+        simp only [List.flatMap_cons] at hnd
+        intro a ha hr
+        exact (List.nodup_append.mp hnd).2.2 a ha a hr rfl
+      have hvalid' : ∀ a ∈ mine.flatMap addrs, a < st.length := fun a ha =>
+        hvalid a (by simp only [List.flatMap_cons, List.mem_append]; exact Or.inr ha)
+      have hth' : ∀ a ∈ theirs.flatMap addrs, a < st.length ∧ a ∉ (m :: mine).flatMap addrs := fun a ha =>
+        hth a (by simp only [List.flatMap_cons, List.mem_append]; exact Or.inr ha)
+      have hne' : ∀ s ∈ theirs, s ≠ none → 0 < slen s := fun s hs => hne s (List.mem_cons_of_mem _ hs)
+      cases o with
+      | none =>
+        simp only [mergeInner, Option.map_eq_some_iff] at h
+        obtain ⟨r, hr, he⟩ := h
+        cases he
+        simp only [viewIds, Option.map_eq_some_iff] at hv
+        obtain ⟨tv', hv', rfl⟩ := hv
+        have := ih (st' := r.1) (res := r.2) hr hlen' hvalid' hnd'
+          (fun a ha => ⟨(hth' a ha).1, fun hm => (hth' a ha).2
+            (by simp only [List.flatMap_cons, List.mem_append]; exact Or.inr hm)⟩) hne' hv'
+        simp only [viewIds, this, Option.map_some]
+      | some os =>
+        simp only [mergeInner] at h
+        cases hc : cells st (some os) with
+        | none => rw [hc] at h; cases h
+        | some src =>
+          rw [hc] at h
+          simp only at h
+          cases ha : mergeInto st m src with
+          | none => rw [ha] at h; cases h
+          | some a =>
+            rw [ha] at h
+            simp only [Option.map_eq_some_iff] at h
+            obtain ⟨r, hr, he⟩ := h
+            cases he
+            -- the other's remaining members, before and after this member's copy
+            have hstep := mergeInto_step (st' := a.1) (d' := a.2) ha
+            have hrest : ∃ tv', viewIds st theirs = some tv' ∧ tv = some src :: tv' := by
+              simp only [viewIds, hc] at hv
+              cases hvr : viewIds st theirs with
+              | none => rw [hvr] at hv; cases hv
+              | some tv' => rw [hvr] at hv; cases hv; exact ⟨tv', rfl, rfl⟩
+            obtain ⟨tv', hv', rfl⟩ := hrest
+            have hv'' : viewIds a.1 theirs = some tv' := by
+              rw [viewIds_step_other hstep (fun x hx => ⟨(hth' x hx).1, fun hm => (hth' x hx).2
+                (by simp only [List.flatMap_cons, List.mem_append]; exact Or.inl hm)⟩)]
+              exact hv'
+            have hih := ih (st' := r.1) (res := r.2) hr hlen'
+              (fun x hx => Nat.lt_of_lt_of_le (hvalid' x hx) hstep.grow) hnd'
+              (fun x hx => ⟨Nat.lt_of_lt_of_le (hth' x hx).1 hstep.grow, fun hm => (hth' x hx).2
+                (by simp only [List.flatMap_cons, List.mem_append]; exact Or.inr hm)⟩) hne' hv''
+            -- this member's copy survives the rest of the loop
+            have hhead : cells r.1 a.2 = some src := by
+              rw [cells_step_other (mergeInner_step (st' := r.1) (res := r.2) hr) (fun x hx =>
+                ⟨hstep.valid x hx, fun hm => by
+                  rcases hstep.sub x hx with h' | h'
+                  · exact hm_notin x h' hm
+                  · have := hvalid' x hm; omega⟩)]
+              exact mergeInto_cells ha
+            have hnonnil : a.2 ≠ none := by
+              intro hn
+              have h1 := mergeInto_cells ha
+              rw [hn] at h1
+              simp only [cells, Option.some.injEq] at h1
+              have hpos := hne (some os) (List.mem_cons_self ..) (by simp)
+              have hlen_src : src.length = os.len := by
+                simp only [cells] at hc
+                split at hc
+                · cases hc
+                · split at hc
+                  · rename_i arr _ hl
+                    cases hc
+                    simp [List.length_take, Nat.min_eq_left hl]
+                  · cases hc
+              simp only [slen] at hpos
+              rw [← h1] at hlen_src
+              simp at hlen_src
+              omega
+            exact viewIds_cons_some hnonnil hhead hih
+
+theorem mergeAreaMembers_view {st st' : Store} {e o : Feat} {ids' : List (Option Slice)}
+    {p' : Option Slice} {iv : List (Option (List Cell))} {pv : List Cell}
+    (h : mergeAreaMembers st e o = some (st', ids', p'))
+    (hv : ∀ a ∈ e.ids.flatMap addrs ++ addrs e.polygons, a < st.length)
+    (hnd : (e.ids.flatMap addrs ++ addrs e.polygons).Nodup)
+    (ho : ∀ a ∈ o.ids.flatMap addrs ++ addrs o.polygons,
+      a < st.length ∧ a ∉ e.ids.flatMap addrs ++ addrs e.polygons)
+    (hne : ∀ s ∈ o.ids, s ≠ none → 0 < slen s)
+    (hiv : viewIds st o.ids = some iv) (hpv : cells st o.polygons = some pv) :
+    viewIds st' ids' = some iv ∧ cells st' p' = some pv := by
+  unfold mergeAreaMembers at h
+  simp only at h
+  have hEids : ∀ a ∈ e.ids.flatMap addrs, a < st.length := fun a ha => hv a (List.mem_append_left _ ha)
+  have hEnd : (e.ids.flatMap addrs).Nodup := (List.nodup_append.mp hnd).1
+  have hEpol : ∀ a ∈ addrs e.polygons, a < st.length ∧ a ∉ e.ids.flatMap addrs := fun a ha =>
+    ⟨hv a (List.mem_append_right _ ha), fun hm => (List.nodup_append.mp hnd).2.2 a hm a ha rfl⟩
+  -- the adjusted list `mine` of the receiver's inner slices and the store `g` it lives in
+  have hg : ∃ (gst : Store) (mine : List (Option Slice)) (X : List Nat),
+      (if e.ids.length < o.ids.length then growIds st e.ids (o.ids.drop e.ids.length)
+        else (st, e.ids.take o.ids.length)) = (gst, mine) ∧
+      Step [] st gst X ∧ mine.length = o.ids.length ∧ (mine.flatMap addrs).Nodup ∧
+      (∀ a ∈ mine.flatMap addrs, a < gst.length ∧ (a ∈ e.ids.flatMap addrs ∨ st.length ≤ a)) := by
+    split
+    · rename_i hlt
+      obtain ⟨news, h1, h2, h3, h4, h5⟩ := growIds_spec (o.ids.drop e.ids.length) st e.ids
+      refine ⟨_, _, _, rfl, h5, ?_, ?_, ?_⟩
+      · rw [h1, List.length_append, h2, List.length_drop]; omega
+      · rw [h1, List.flatMap_append]
+        refine List.nodup_append.mpr ⟨hEnd, h3, ?_⟩
+        intro a ha b hb hab
+        have := hEids a ha
+        have := h4 b hb
+        omega
+      · intro a ha
+        rw [h1, List.flatMap_append] at ha
+        rcases List.mem_append.mp ha with ha | ha
+        · exact ⟨Nat.lt_of_lt_of_le (hEids a ha) h5.grow, Or.inl ha⟩
+        · exact ⟨h5.valid a ha, Or.inr (h4 a ha)⟩
+    · rename_i hge
+      have hsub : ∀ a ∈ (e.ids.take o.ids.length).flatMap addrs, a ∈ e.ids.flatMap addrs := by
+        intro a ha
+        simp only [List.mem_flatMap] at ha ⊢
+        obtain ⟨s, hs, has⟩ := ha
+        exact ⟨s, List.mem_of_mem_take hs, has⟩
+      refine ⟨st, _, [], rfl, Step.refl (by simp), ?_, ?_, ?_⟩
+      · rw [List.length_take]; omega
+      · have : (e.ids.take o.ids.length ++ e.ids.drop o.ids.length).flatMap addrs = e.ids.flatMap addrs := by
+          rw [List.take_append_drop]
+        rw [List.flatMap_append] at this
+        rw [← this] at hEnd
+        exact (List.nodup_append.mp hEnd).1
+      · intro a ha
+        exact ⟨hEids a (hsub a ha), Or.inl (hsub a ha)⟩
+  obtain ⟨gst, mine, X, hgeq, hgstep, hlen, hmnd, hmine⟩ := hg
+  rw [hgeq] at h
+  simp only at h
+  have ho_g : ∀ a ∈ o.ids.flatMap addrs ++ addrs o.polygons, a < gst.length ∧ a ∉ mine.flatMap addrs := by
+    intro a ha
+    refine ⟨Nat.lt_of_lt_of_le (ho a ha).1 hgstep.grow, fun hm => ?_⟩
+    rcases (hmine a hm).2 with h' | h'
+    · exact (ho a ha).2 (List.mem_append_left _ h')
+    · have := (ho a ha).1; omega
+  cases hi : mergeInner gst mine o.ids with
+  | none => rw [hi] at h; cases h
+  | some i =>
+    rw [hi] at h
+    simp only at h
+    cases hc : cells i.1 o.polygons with
+    | none => rw [hc] at h; cases h
+    | some ps =>
+      rw [hc] at h
+      simp only at h
+      cases hp : mergeInto i.1 e.polygons ps with
+      | none => rw [hp] at h; cases h
+      | some p =>
+        rw [hp] at h
+        simp only [Option.some.injEq, Prod.mk.injEq] at h
+        obtain ⟨rfl, rfl, rfl⟩ := h
+        have histep := mergeInner_step (st' := i.1) (res := i.2) hi
+        have hpstep := mergeInto_step (st' := p.1) (d' := p.2) hp
+        have hiv_g : viewIds gst o.ids = some iv := by
+          rw [viewIds_step_other hgstep (fun a ha => ⟨(ho a (List.mem_append_left _ ha)).1, by simp⟩)]
+          exact hiv
+        have hids := mergeInner_view hi hlen (fun a ha => (hmine a ha).1) hmnd
+          (fun a ha => ho_g a (List.mem_append_left _ ha)) hne hiv_g
+        have hps : ps = pv := by
+          have : cells i.1 o.polygons = cells st o.polygons := by
+            rw [cells_step_other histep (fun a ha => ho_g a (List.mem_append_right _ ha)),
+              cells_step_other hgstep (fun a ha => ⟨(ho a (List.mem_append_right _ ha)).1, by simp⟩)]
+          rw [this, hpv] at hc
+          exact (Option.some.inj hc).symm
+        refine ⟨?_, hps ▸ mergeInto_cells hp⟩
+        rw [viewIds_step_other hpstep (fun a ha => ⟨histep.valid a ha, fun hm => ?_⟩)]
+        · exact hids
+        · -- an inner slice of the result is not the receiver's polygons array
+          have hpol := hEpol a hm
+          rcases histep.sub a ha with h' | h'
+          · rcases (hmine a h').2 with h'' | h''
+            · exact hpol.2 h''
+            · omega
+          · have := hgstep.grow
+            omega
 
 end B6.Lemmas.FeatureHeap
